@@ -14,6 +14,23 @@
 //! another response; chain-level: attacker key set with everything re-signed, attacker DS, fake
 //! insecure delegation, ancestor-delegation denial, fake zone cut, insecure-SOA denial), adaptive
 //! double faults, and histories on one shared validator (validation cache participates).
+//! Further chain-level attacks: attacker KSK sharing the genuine KSK's key tag, attacker ZSK slipped
+//! into the genuine key set, a forged answer signed by the real keys of ANOTHER securely delegated zone.
+//!
+//! Every alarm is shrunk (history -> single step -> single fault -> fewest primitives) before it is
+//! reported; the signature is `detail|fault kind|chain link` of the shrunk case (`multi-fault` /
+//! `via-history` when it does not shrink to one fault / one step; the panic site for panics).
+//!
+//! Second observation point (`server.rs`): the wire response of `Catalog` -> hickory's own
+//! `ForwardZoneHandler` -> `Resolver` (validate) -> pool -> harness connection provider over the same
+//! tamperable upstream, for (DO, AD, CD, RD) combinations: AD=1 only over genuine, complete RRsets of
+//! truly secure zones in answer and authority; nothing forged and no denial of existing secure data
+//! to a CD=0 client; RD=0 refused.
+//!
+//! Determinism: hierarchies and queries come from the shard's main PRNG stream; every later stage
+//! draws from a generator derived from (hierarchy, query, stage), because what hickory does with a
+//! tampered response (order and set of sub-queries) depends on its randomly seeded HashMaps.
+//! `--replay` rebuilds hierarchy, keys (seeds / PKCS#8 in the JSON), query and faults from the case alone.
 
 #[path = "../c05/refsign.rs"]
 mod refsign;
@@ -891,47 +908,51 @@ fn main() {
         rep.replay_finish();
     }
 
-    // must-observe
+    // must-observe (totals over all shards; at least 3x below what the quick tier shows at seeds 1..5)
     for class in ["ds-good", "no-ds", "island", "ds-unsupported-alg", "ds-unsupported-digest", "ds-mixed", "ds-standby"] {
-        rep.must(&format!("honest_expected_marks/{class}"), 3);
+        rep.must(&format!("honest_expected_marks/{class}"), 10);
     }
-    rep.must("honest_secure_verdicts/nsec", 20);
-    rep.must("honest_secure_verdicts/nsec3", 20);
-    rep.must("honest_insecure_verdicts", 20);
-    rep.must("honest_secure_below_nsec_parent", 5);
-    rep.must("honest_secure_below_nsec3_parent", 5);
-    rep.must("honest_insecure_proven_by_nsec_parent", 3);
-    rep.must("honest_insecure_proven_by_nsec3_parent", 3);
-    rep.must("runs_with_3plus_upstream_responses", 1000);
-    rep.must("double_fault_runs", 100);
-    rep.must("server_requests", 1000);
-    rep.must("server_ad1/honest", 50);
-    rep.must("server_rcode/tampered/2", 100);
-    rep.must("server_rd0_refused", 10);
-    rep.must("history_tampered_steps", 100);
-    rep.must("history_honest_after_tampered", 30);
+    rep.must("honest_secure_verdicts/nsec", 100);
+    rep.must("honest_secure_verdicts/nsec3", 100);
+    rep.must("honest_insecure_verdicts", 100);
+    rep.must("honest_secure_below_nsec_parent", 30);
+    rep.must("honest_secure_below_nsec3_parent", 30);
+    rep.must("honest_insecure_proven_by_nsec_parent", 30);
+    rep.must("honest_insecure_proven_by_nsec3_parent", 30);
+    rep.must("honest_expected_marks/key-tag-collision-zone", 10);
+    rep.must("runs_with_3plus_upstream_responses", 20_000);
+    rep.must("double_fault_runs", 2000);
+    rep.must("history_tampered_steps", 2000);
+    rep.must("history_honest_after_tampered", 1000);
+    rep.must("server_requests", 8000);
+    rep.must("server_ad1/honest", 500);
+    rep.must("server_rcode/tampered/2", 2000);
+    rep.must("server_rd0_refused", 200);
     for k in RECORD_KINDS {
         for l in ["answer", "dnskey", "ds", "denial", "nsprobe"] {
-            rep.must(&format!("fault/{k}/{l}"), 10);
+            rep.must(&format!("fault/{k}/{l}"), 50);
         }
     }
     for k in ["strip-rrsigs", "flip-rcode", "empty-section", "replay-other"] {
         for l in ["answer", "dnskey", "ds", "denial"] {
-            rep.must(&format!("fault/{k}/{l}"), 10);
+            rep.must(&format!("fault/{k}/{l}"), 50);
         }
     }
-    rep.must("fault/strip-denial/denial", 10);
-    rep.must("fault/attacker-keyset/dnskey", 10);
-    rep.must("fault/cross-zone-signature/answer", 10);
-    rep.must("faultvariant/attacker-keyset:tag-matched-forged-data", 5);
-    rep.must("faultvariant/attacker-keyset:zsk-injected", 5);
-    rep.must("fault/attacker-ds/ds", 10);
-    rep.must("fault/attacker-chain/ds", 10);
-    rep.must("fault/fake-insecure-delegation/denial", 10);
-    rep.must("fault/ancestor-denial/denial", 10);
-    rep.must("fault/fake-cut/nsprobe", 10);
-    rep.must("fault/insecure-soa-denial/answer", 5);
-    rep.must("fault/insecure-soa-denial/denial", 5);
+    rep.must("fault/strip-denial/denial", 50);
+    rep.must("fault/attacker-keyset/dnskey", 50);
+    rep.must("fault/attacker-ds/ds", 50);
+    rep.must("fault/attacker-chain/ds", 50);
+    rep.must("fault/fake-insecure-delegation/denial", 50);
+    rep.must("fault/ancestor-denial/denial", 50);
+    rep.must("fault/fake-cut/nsprobe", 50);
+    rep.must("fault/insecure-soa-denial/answer", 50);
+    rep.must("fault/insecure-soa-denial/denial", 50);
+    rep.must("fault/cross-zone-signature/answer", 50);
+    rep.must("faultvariant/attacker-keyset:tag-matched-forged-data", 30);
+    rep.must("faultvariant/attacker-keyset:zsk-injected", 100);
+    for v in ["bare", "soa-only", "replayed-nx-denial-noerror", "replayed-nx-denial", "child-apex-denial", "ds-bit-cleared"] {
+        rep.must(&format!("faultvariant/fake-insecure-delegation:{v}"), 30);
+    }
     let _ = (RESPONSE_KINDS, CHAIN_KINDS);
 
     let attacker_tags = lab.attacker.tag_table();
@@ -943,7 +964,7 @@ fn main() {
 
     let mut rng = ctx.rng("main");
     let thorough = ctx.is_thorough();
-    let n_hier = ctx.budget(96, 3200);
+    let n_hier = ctx.budget(256, 12_000);
     let n_queries = if thorough { 14 } else { 9 };
     let cap_single = if thorough { 400 } else { 36 };
     let n_double = if thorough { 24 } else { 6 };
@@ -1053,7 +1074,12 @@ fn main() {
         }
 
         // ---- single faults, double faults, histories -------------------------------------------
-        for (q, ex) in &recorded {
+        for (qi, (q, ex)) in recorded.iter().enumerate() {
+            // Every stage below draws from its own generator derived from (hierarchy, query, stage): what
+            // hickory does (the set of sub-queries of a tampered run depends on its HashMap iteration
+            // order) must not shift the random stream of the cases that follow.
+            let stage = |label: &str, k: u64| Rng::new(hier_hash ^ fnv64(format!("{qi}/{label}/{k}").as_bytes()));
+            let mut rng = stage("single", 0);
             let mut all = local_faults(&mut rng, ex, true, &pool, &tops, thorough);
             all.extend(chain_faults(&mut rng, &b, q, ex, &attacker_tags));
             j.rep.add("single_faults_enumerated", all.len() as u64);
@@ -1070,7 +1096,8 @@ fn main() {
                 j.judge(&b, &steps, &results, "single-fault");
             }
             // adaptive double faults: the second fault may sit on an exchange only the first one provokes
-            for _ in 0..n_double {
+            for k in 0..n_double {
+                let mut rng = stage("double", k as u64);
                 let f1 = rng.pick(&all).clone();
                 let steps1 = vec![Step { qname: q.qname.clone(), qtype: q.qtype, faults: vec![f1.clone()] }];
                 let r1 = run_steps(&lab, &b, &steps1);
@@ -1091,6 +1118,7 @@ fn main() {
             }
             // histories on one shared validator
             for hn in 0..n_hist {
+                let mut rng = stage("history", hn as u64);
                 let f = rng.pick(&all).clone();
                 let other = &recorded[rng.usize_below(recorded.len())].0;
                 let honest = |q: &QueryCase| Step { qname: q.qname.clone(), qtype: q.qtype, faults: vec![] };
@@ -1105,6 +1133,7 @@ fn main() {
                 j.judge(&b, &steps, &results, "history");
             }
             // second observation point: the server's wire response
+            let mut rng = stage("server", 0);
             if server_on {
                 let honest_step = Step { qname: q.qname.clone(), qtype: q.qtype, faults: vec![] };
                 let all_flags = server::Flags::all();
